@@ -326,9 +326,10 @@ class Pipeline(Instance):
         return False
 
     def native(self, inp):
-        case = {"threads": self.threads, "k": self.k, "splitters": [str(kmer_canon(w)) for w in self.splitters], "driver": self.driver, "qcap": self.qcap,
+        samples0, splitters0 = (self.alts[inp.get("alt", 0)] if self.alts else (self.samples, self.splitters))
+        case = {"threads": self.threads, "k": self.k, "splitters": [str(kmer_canon(w)) for w in splitters0], "driver": self.driver, "qcap": self.qcap,
                 "cfg": {n: (v.v if hasattr(v, "v") else v) for n, v in self.cfg.items()},
-                "samples": [[sn.decode(), [[cn.decode(), list(d)] for cn, d in cs]] for sn, cs in self.samples], "runs": {"determinism": 12, "fault": 0}.get(self.view, 2), "indep": self.view == "format", "watchdog_s": 90}
+                "samples": [[sn.decode(), [[cn.decode(), list(d)] for cn, d in cs]] for sn, cs in samples0], "runs": {"determinism": 12, "fault": 0}.get(self.view, 2), "indep": self.view == "format", "watchdog_s": 90}
         if inp.get("samples"):
             case["samples"] = inp["samples"]
         if self.view == "fault":
